@@ -94,4 +94,38 @@ CLAUSES = [
            rule="random DFAs (1-5 states, renamed, several hash seeds for the elimination order); derivative automaton of the extracted expression "
                 "exactly equivalent to the DFA; non-trivial: >= 2 reachable states and language neither empty nor full"),
 ]
+from props import workbench as WB   # noqa: E402
+
+
+def run_r2n_sequence(case):
+    """Several expressions are converted first; only then every NFA is validated (results handed out earlier must not be affected by later calls)."""
+    nfas = [(t, lib(regexp_to_nfa, BR.mk(t))) for t in case["res"]]
+    for t, N in nfas:
+        snap = B.snap_nfa(N)
+        err = fa.valid_nfa_snapshot(snap)
+        if err:
+            raise Fail("sequence_invalid_nfa", "the NFA of %s is invalid after later conversions: %s" % (RX.render_full(t), err))
+        if not RX.symbols(t) <= set(snap["S"]):
+            raise Fail("sequence_alphabet", "after later conversions the NFA of %s has alphabet %r" % (RX.render_full(t), snap["S"]))
+        S = sorted(snap["S"])
+        w = fa.equiv(fa.determinise(snap, alphabet=S), ref_dfa(t, S))
+        if w is not None:
+            raise Fail("sequence_language", "after later conversions the NFA of %s differs from the denotation on %r" % (RX.render_full(t), w))
+    return {"nt": len(nfas) >= 2, "cls": ["n_%d" % len(nfas)], "out": {}}
+
+
+@st.composite
+def r2n_sequence_cases(draw, tier):
+    out = []
+    for _ in range(draw(st.integers(2, 4))):
+        syms = draw(st.sampled_from([["a"], ["a", "b"], ["b", "c"], ["c"]]))
+        out.append(draw(GR.trees(syms, max_leaves=draw(st.sampled_from([1, 1, 2, 5])))))
+    return {"res": out}
+
+
+CLAUSES.append(Clause("regexp_to_nfa_sequence", r2n_sequence_cases, run_r2n_sequence, quick=600, thorough=5000,
+                      rule="2-4 expressions over different alphabets (many of them atoms or single stars) are converted one after the other; afterwards every NFA must still be "
+                           "valid, contain the symbols of its expression and accept exactly its language"))
+CLAUSES.append(Clause("object_history", lambda tier: WB.fa_programs(tier, "regexp"), WB.run_fa, quick=400, thorough=4000,
+                      rule="(dfa_to_regexp on DFA objects with a history: converted, modified in place, converted again) " + WB.FA_RULE))
 KNOWN_PREDICATES = {}
